@@ -21,7 +21,7 @@ MESSAGES = ['m', '', 'é☃']
 DATA = [ABSENT, None, 0, '', [], {}, [1, {'a': None}], 'text', 1.5, True, False]
 EXCS = ['ValueError', 'KeyError', 'TypeError', 'AssertionError', 'RuntimeError', 'MarkerLookup', 'MarkerBoom',
         'ZeroDivisionError', 'Exception', 'AttributeError', 'StopIteration', 'OSError', 'NotImplementedError',
-        'DeserializationError', 'IdentityError', 'BaseError', 'ValidationError', 'RecursionError', 'BadRepr', 'HugeInt']
+        'DeserializationError', 'IdentityError', 'BaseError', 'ValidationError', 'RecursionError', 'BadRepr', 'HugeInt', 'CallMismatch', 'KwMismatch']
 STD = {-32700: 'ParseError', -32600: 'InvalidRequestError', -32601: 'MethodNotFoundError',
        -32602: 'InvalidParamsError', -32603: 'InternalError', -32000: 'ServerError'}
 
